@@ -405,3 +405,7 @@ mod tests {
         handle.abort();
     }
 }
+
+#[cfg(all(test, feature = "pendulum_project_ntpd_rs_verif"))]
+#[path = "../../../../verif/harness/ntpd/daemon_observer.rs"]
+mod verif_daemon_observer;
